@@ -133,6 +133,7 @@ func closeKnown(known []string) []string {
 //   template: declared endpoints base/v1/{id} … base/v<thr>/{id} (exactly at the split threshold), traffic below them, and
 //            one traffic URL that still carries a template segment (base/v<thr+1>/{id}): its insert converges the tree
 //            AND fails on the clashing parameter name — NormalizeTree must report (converged = true) with the error
+//   down   : provider down — durations -1 (negative totals), one or two endpoints, so that the means are combined many times
 //   bad    : single + one URL the tree refuses (regression for the repaired F15a: the batch is no longer dropped)
 //   delim  : URLs containing the METHOD:::URL delimiter (regression for the repaired F15b)
 //   weird  : no convergence; trimming, host/path confusion, trailing wildcard
@@ -143,7 +144,12 @@ func genStream(r *prng.R, maxLen int, kind string) stream {
 	}
 	var pool []string
 	closed := false
+	down := kind == "down" // provider down: (almost) every duration is -1, few endpoints, many combines
 	switch kind {
+	case "down":
+		s.thr = 50
+		h := prng.Pick(r, hosts)
+		pool = []string{h + "/orders", h + "/orders", h + "/health"}
 	case "weird":
 		s.thr = 50
 		pool = []string{"a.com/x", "a/com/x", "a.com/x/*", "a.com/x/y", "a.com/x./", "/a.com/x/", "a.com/x/.", "a.com", "a.com/v1.2/z", "a.com/x/y/z"}
@@ -215,6 +221,15 @@ func genStream(r *prng.R, maxLen int, kind string) stream {
 			dur = r.Intn(3_000_000)
 		}
 		tot := dur + r.Intn(200)
+		switch { // HAProxy logs -1 (%Tr) when the provider never answered; totals of both signs and zero must occur
+		case down || r.Chance(12):
+			dur, tot = -1, prng.Pick(r, []int{-1, -1, 0, 3})
+		case r.Chance(5):
+			dur, tot = r.Range(-5, 5), r.Range(-5, 5)
+		}
+		if down && r.Chance(15) {
+			dur, tot = r.Range(0, 2), r.Range(0, 4)
+		}
 		s.recs = append(s.recs, recLine(ts, dur, tot, prng.Pick(r, statuses), prng.Pick(r, methods), u,
 			prng.Pick(r, interceptors), prng.Pick(r, consumers), internal))
 	}
@@ -308,6 +323,8 @@ func gen(r *prng.R, f proto.Flags, emit func(proto.Case)) {
 			switch {
 			case k%25 == 24:
 				kind = "weird"
+			case k%25 == 21 || k%25 == 20:
+				kind = "down"
 			case k%25 == 22:
 				kind = "template"
 			case k%25 == 23:
@@ -354,6 +371,8 @@ func gen(r *prng.R, f proto.Flags, emit func(proto.Case)) {
 		switch {
 		case k%20 < 7:
 			kind = "single"
+		case k%20 == 14 || k%20 == 13:
+			kind = "down"
 		case k%20 == 15:
 			kind = "template"
 		case k%20 == 16:
